@@ -305,12 +305,12 @@ func (e *explainer) solveBodyRec(premises []ast.Term, uf unionfind.UnionFind, de
 		return e.solveBodyRec(rest, uf, depth, need, accAtoms, accProofs, partial)
 	case ast.NegAtom:
 		ground, err := functional.EvalAtom(p.Atom, uf)
-		if err != nil || !isGround(ground) {
+		if err != nil || !groundUpToWildcards(ground) {
 			// Non-ground negation slipped past safety checks; mark partial.
 			return e.solveBodyRec(rest, uf, depth, need, accAtoms, accProofs, true)
 		}
-		if e.store.Contains(ground) {
-			// Negated premise fails: the atom IS in the store.
+		if storeHasMatch(e.store, ground) {
+			// Negated premise fails: a matching atom IS in the store.
 			return nil
 		}
 		leaf := &ProofNode{
@@ -394,6 +394,33 @@ func isGround(a ast.Atom) bool {
 		}
 	}
 	return true
+}
+
+// groundUpToWildcards returns true if all arguments are constants or wildcards.
+// A negated atom with wildcards stands for "no such tuple".
+func groundUpToWildcards(a ast.Atom) bool {
+	for _, arg := range a.Args {
+		if v, ok := arg.(ast.Variable); ok && v.Symbol == "_" {
+			continue
+		}
+		if _, ok := arg.(ast.Constant); !ok {
+			return false
+		}
+	}
+	return true
+}
+
+// storeHasMatch returns true if the store has a fact that matches the pattern.
+func storeHasMatch(store factstore.ReadOnlyFactStore, pattern ast.Atom) bool {
+	if isGround(pattern) {
+		return store.Contains(pattern)
+	}
+	found := false
+	store.GetFacts(pattern, func(ast.Atom) error {
+		found = true
+		return nil
+	})
+	return found
 }
 
 func baseTermsFrom(a ast.Atom) []ast.BaseTerm {
